@@ -317,7 +317,8 @@ def _river(run, prog):
     for ev, ctx in walk(sc.events, structural=True):
         # the helper that is handed what the model returned (wherever in __call__'s own helpers that happens)
         if isinstance(ev, ir.Inlined) and ev.cls is not None and ev.fn.name in cls.methods and ev.fn.name not in helpers and \
-                any(isinstance(v, tuple) and v and v[0] == "res" and v[2] == pf_call for v in ev.params.values()):
+                any(isinstance(v, tuple) and v and v[0] == "res" and v[2] == pf_call for v in ev.params.values()) and \
+                not any(i.fn.name in helpers for i in ctx.inl):
             helpers.append(ev.fn.name)
     run.need(len(helpers) == 1, f"RiverWrapper.__call__ does not convert outputs through one helper method: {helpers}")
     hname = helpers[0]
